@@ -25,6 +25,7 @@ Terms
 """
 from __future__ import annotations
 
+from fractions import Fraction
 from typing import Any, Dict, List, Optional
 
 import z3
@@ -48,11 +49,9 @@ class OdataRef:
         self.consts = consts or {}
         self.side: List[Any] = []
         self.real_div = real_div
-        self._frac = None
-        if real_div:
-            from .sqlite_model import SqliteModel
-            self._frac = SqliteModel(None)
-            self._frac.side = self.side            # share the no-overflow side conditions
+        from .sqlite_model import SqliteModel
+        self._frac = SqliteModel(None)             # exact fraction arithmetic (shared, validated primitive)
+        self._frac.side = self.side                # share the no-overflow side conditions
 
     def keeps(self, term):
         return V.keep(V.to_bool(self.ev(term)))
@@ -72,6 +71,8 @@ class OdataRef:
             return V.iconst(t[1])
         if k == "str":
             return V.sconst(t[1])
+        if k == "float":
+            return _float_literal(t[1])
         if k == "bool":
             return V.bconst(t[1])
         if k == "null":
@@ -86,7 +87,9 @@ class OdataRef:
             return IntV(x.null, -x.val)
         if k == "arith":
             l, r = self.ev(t[2]), self.ev(t[3])
-            if self.real_div and t[1] != "mod" and (t[1] == "div" or "real" in (l.kind, r.kind)):
+            if "real" in (l.kind, r.kind) and t[1] == "mod" and not self.real_div:
+                raise Unmodelled("mod on a non-integer operand")
+            if t[1] != "mod" and ("real" in (l.kind, r.kind) or (self.real_div and t[1] == "div")):
                 l, r = V.to_real(l), V.to_real(r)
                 if t[1] == "div":
                     self._guard(z3.Or(l.null, r.null), r.num != 0)
@@ -217,6 +220,10 @@ class OdataRef:
                 cnt = V.bv(BIG)
             out = V.s_slice(x, i.val, cnt)
             return StrV(null, out.len, out.c)
+        if name in ("round", "floor", "ceiling"):
+            # OData 4.01: round = nearest integral value, midpoints away from zero; floor / ceiling as usual
+            x = V.to_real(a[0])
+            return V.real_round(x, {"round": "round", "floor": "floor", "ceiling": "ceil"}[name], self._guard)
         if name == "tolower":
             return V.s_lower(self._s(a[0]))
         if name == "toupper":
@@ -226,6 +233,18 @@ class OdataRef:
         if name == "concat":
             return V.s_concat(self._s(a[0]), self._s(a[1]))
         raise Unmodelled(f"OData function {name}")
+
+
+def _float_literal(text: str):
+    from decimal import Decimal, InvalidOperation
+    from fractions import Fraction
+    try:
+        fr = Fraction(Decimal(text))
+    except (InvalidOperation, ValueError):
+        raise Unmodelled(f"float literal {text}")
+    if abs(fr.numerator) > 1000 or fr.denominator > 1000:
+        raise Unmodelled(f"float literal {text} outside the modelled range")
+    return V.RealV(V.FALSE, V.bv(fr.numerator), V.bv(fr.denominator))
 
 
 MODELLED_FUNCTIONS = ("contains", "startswith", "endswith", "indexof", "length", "substring", "tolower", "toupper",
@@ -250,17 +269,29 @@ def eval_concrete(t, row: Dict[str, Any], hook=None) -> Any:
         return row[t[1]]
     if k in ("int", "str", "bool"):
         return t[1]
+    if k == "float":
+        from decimal import Decimal
+        return Fraction(Decimal(t[1]))
     if k == "null":
         return None
     if k == "neg":
         x = eval_concrete(t[1], row, hook)
-        return None if x is None else -int(x)
+        return None if x is None else (-x if isinstance(x, Fraction) else -int(x))
     if k == "arith":
         a, b = eval_concrete(t[2], row, hook), eval_concrete(t[3], row, hook)
         if a is None or b is None:
             return None
-        a, b = int(a), int(b)
         op = t[1]
+        if isinstance(a, Fraction) or isinstance(b, Fraction):       # a float-typed operand: real arithmetic
+            a, b = Fraction(a), Fraction(b)
+            if op == "mod":
+                raise Undefined("mod on a non-integer operand")
+            if op == "div":
+                if b == 0:
+                    raise Undefined("division by zero")
+                return a / b
+            return {"add": a + b, "sub": a - b, "mul": a * b}[op]
+        a, b = int(a), int(b)
         if op == "add":
             return a + b
         if op == "sub":
@@ -283,7 +314,7 @@ def eval_concrete(t, row: Dict[str, Any], hook=None) -> Any:
             return None
         if isinstance(a, str) != isinstance(b, str):
             raise Undefined("ill-typed comparison")
-        if not isinstance(a, str):
+        if not isinstance(a, str) and not isinstance(a, Fraction) and not isinstance(b, Fraction):
             a, b = int(a), int(b)
         return {"eq": a == b, "ne": a != b, "lt": a < b, "le": a <= b, "gt": a > b, "ge": a >= b}[op]
     if k == "in":
@@ -325,6 +356,15 @@ def eval_concrete(t, row: Dict[str, Any], hook=None) -> Any:
                     raise Undefined("negative substring length")
                 return a[0][i:i + int(a[2])]
             return a[0][i:]
+        if n in ("round", "floor", "ceiling"):
+            import math
+            x = Fraction(a[0])
+            if n == "floor":
+                return Fraction(math.floor(x))
+            if n == "ceiling":
+                return Fraction(math.ceil(x))
+            t_ = math.floor(abs(x) + Fraction(1, 2))              # midpoints away from zero
+            return Fraction(t_ if x >= 0 else -t_)
         if n == "tolower":
             return a[0].lower()
         if n == "toupper":
